@@ -89,6 +89,8 @@ def _plain_sum(e):
     if isinstance(e, ast.Call) and dotted(e.func) == "sum" and e.args and isinstance(e.args[0], ast.GeneratorExp | ast.ListComp) and len(e.args[0].generators) == 1:
         g = e.args[0]
         gen = g.generators[0]
+        if isinstance(gen.iter, ast.Call) and isinstance(gen.iter.func, ast.Attribute) and is_name(gen.iter.func.value, "self") and gen.iter.func.attr in ("fragments", "gaps", "idx_fragments") and not gen.iter.args:
+            return f"the sum runs over self.{gen.iter.func.attr}() only, not over all rows"
         if norm(gen.iter) != "self.rows" or not isinstance(gen.target, ast.Name):
             return None
         if gen.ifs:
